@@ -25,6 +25,7 @@ LEVEL = "exploration"
 
 _ENV = {}
 G_VAL = 0           # module global read by the "global" shape
+a = b = A = B = None  # tables / mapped classes the lambdas refer to as module globals; set by env()
 _CAP = {"on": False, "log": []}
 
 
@@ -338,7 +339,7 @@ def _work(task):
 
 def run(run, tier, seed, args):
     t0 = time.time()
-    length = 4 if tier == "thorough" else 3
+    length = 5 if tier == "thorough" else 3
     tasks = []
     for shape in SHAPES:
         seqs = sequences_for(shape, length)
